@@ -69,3 +69,8 @@ def shape_key(case, results):
             t = r.req.split()
             return "store-" + t[1] + "-" + "-".join(f for f in r.flags if f.startswith("merge-") or f in ("dup", "add-missing", "fetch-missing"))
     return "none"
+
+SOURCE_TIE = "Source-level tie by proof (Tie/Track, Tie/StoreCmd): Track::add_observation, Track::merge and the Merge command of the store worker, regenerated from the source, equal the model's addObservation / merge / the per-shard mergeExternal step."
+LEVEL_TEXT = LEVEL_TEXT + " " + SOURCE_TIE
+TRUSTED_BASE = TRUSTED_BASE + ["translator/kernels.py + rustexpr.py (reader of the Rust subset, per-function tables) for the functions named in SOURCE_TIE; generated definitions are proof obligations (Tie modules) on every run"]
+TECHNIQUE = TECHNIQUE + "; model regenerated from the source by a translator for the functions of SOURCE_TIE, tied by proof"
